@@ -259,6 +259,21 @@ def sigclip_and_sky(rep, r, n):
                     rep.violation('sigclip-or-localbkg', f'position {i}: sigma-clipped statistics with per-position local background '
                                   f'differ from the direct computation', {'positions': pos, 'local_bkg': lbs.tolist()})
                     break
+            # sum / sum_aper_area with fractional ('exact') weights: the clip is decided on the pixel VALUES of the pixels the aperture
+            # touches, the weights are applied afterwards (seed C16-r9 clipped value x weight: on a pedestal the edge pixels look like outliers)
+            for i, (p, lb) in enumerate(zip(pos, lbs)):
+                wimg = CircularAperture(p, 4.0).to_mask('exact').to_image(img.shape)
+                if wimg is None or not (wimg > 0).any():
+                    continue
+                sel = wimg > 0
+                vals, wts = img[sel] - lb, wimg[sel]
+                keep = ~np.ma.getmaskarray(sc(vals, masked=True))
+                es, ea = float(np.sum(vals[keep] * wts[keep])), float(np.sum(wts[keep]))
+                if not (close(float(st.sum[i]), es, 1e-9) and close(float(st.sum_aper_area[i].value), ea, 1e-9)):
+                    rep.violation('sigclip-weighted-sum', f'position {i}: sigma-clipped sum / sum_aper_area with exact weights = {float(st.sum[i])!r} / '
+                                  f'{float(st.sum_aper_area[i].value)!r}; clipping the pixel values and then applying the weights gives {es!r} / {ea!r}',
+                                  {'positions': pos, 'local_bkg': lbs.tolist(), 'image': img.tolist()})
+                    break
             # single == batch
             one = ApertureStats(img, CircularAperture(pos[1], 4.0), sigma_clip=sc, local_bkg=lbs[1])
             if not close(float(one.mean), float(st.mean[1]), 1e-12):
